@@ -209,7 +209,8 @@ def post_insert(G, pre, new, P, S, btype, new_was_present):
         return [("new-block-missing", new)]
     if type(nb) is not BTYPES[btype]:
         errs.append(("new-block-wrong-type", type(nb).__name__))
-    if tuple(nb._jump_targets) != tuple(S):
+    if sorted(nb._jump_targets) != sorted(S):
+        # "whose successors are exactly S": the statement fixes which, not in what order
         errs.append(("new-block-successors", "expected %s got %s" % (list(S), list(nb._jump_targets))))
     if nb.backedges:
         errs.append(("new-block-has-backedges", str(nb.backedges)))
@@ -253,7 +254,8 @@ def post_control(G, pre, new, P, S, new_was_present, issued_now):
     if type(nb) is not SyntheticHead:
         errs.append(("new-block-wrong-type", type(nb).__name__))
         return errs
-    if tuple(nb._jump_targets) != tuple(S):
+    if sorted(nb._jump_targets) != sorted(S):
+        # the head is steered by its table; the order of its successors carries no decision
         errs.append(("new-block-successors", "expected %s got %s" % (list(S), list(nb._jump_targets))))
     table = dict(nb.branch_value_table)
     var = nb.variable
